@@ -4,7 +4,7 @@
    C02ZeroWidthSuffix.document_passes_pb.  No new model code: document_markdown is Model/C02Markdown.v's (stream N). *)
 Require Import Base Overlap Mask MaskProofs.
 Require Import OverlapProofs Tables_lexer Lexer Condense ListLemmas TokenInv CondenseInv LexerProofs
-  C02Gapped C02Quotes C02Markdown C02MarkdownProofs C02ZeroWidth C02ZeroWidthSuffix.
+  C02Gapped C02Quotes C02Markdown C02MarkdownProofs C02ZeroWidth C02ZeroWidthSuffix C02Inert C02ZeroWidthNl.
 From Coq Require Import List Arith NArith Lia ZArith.
 Import ListNotations.
 
@@ -49,3 +49,47 @@ Proof.
 Qed.
 
 Print Assumptions document_markdown_breaks.
+
+(* ---------- phase 7: streams WITH a Start(List) Newline that condense_newlines leaves alone ---------- *)
+(* nl_inertb (Model/C02Inert.v, decidable): every zero-width Newline counts >= 2 lines and, after condense_spaces, none
+   of them is a vector-neighbour of another Newline.  TokInv needs no order clause for them: read as floating breaks
+   (nl2pb) the vector is PbGapped (C02ZeroWidthNl.tokinv_nl2pb).  The class left over is `md_doc_class ts = 2`. *)
+Theorem document_markdown_inert_newlines u ilt src evs :
+  Forall valid_char src -> md_contract src evs ->
+  exists ts, markdown_parse u ilt src evs = Ok ts /\ TokInv (length src) ts /\
+    (nl_inertb ts = true ->
+     exists t9, document_markdown u ilt src evs = Ok t9 /\
+       TokInv (length src) t9 /\ zw_only_breaks t9 /\ QuotesOkBut (unpaired_quote t9) t9 /\
+       (NoTwins ts -> QuotesOk t9)).
+Proof.
+  intros Hv Hc. destruct (markdown_glue u ilt src evs Hv Hc) as (raw & ts & _ & E & _ & _ & TI & _).
+  exists ts. split; [exact E|]. split; [exact TI|]. intros HZ.
+  destruct (document_passes_tokinv_nl src ts TI HZ) as [t9 [E9 [P9 [Q9 QN]]]].
+  exists t9. split; [unfold document_markdown; rewrite E; cbn [bind]; exact E9|].
+  apply pbgapped_iff_tokinv in P9. destruct P9 as [T9 Z9]. split; [exact T9|]. split; [exact Z9|]. split; [exact Q9|exact QN].
+Qed.
+
+(* non-vacuity: `a\n\n- b` with the stream pulldown-cmark 0.13 delivers (corpus/C02/markdown.json): Markdown::parse
+   pushes the zero-width Newline(2) of Start(List) at 3; class 1 (not all zero-width tokens are breaks, inert);
+   the document holds it as a zero-width ParagraphBreak *)
+Definition md_nl_src : text := [97; 10; 10; 45; 32; 98]%N.
+Definition md_nl_evs : list mevent :=
+  [mev_ (MStart TParagraph) 0 2; mev_ (MText 1) 0 1; mev_ MEndBreaking 0 2;
+   mev_ (MStart TList) 3 6; mev_ (MStart TItem) 3 6; mev_ (MText 1) 5 6; mev_ MEndBreaking 3 6; mev_ MEndOther 3 6].
+Definition md_nl_out : list token :=
+  [mktok (mkspan 0 1) KWord; mktok (mkspan 0 0) KParagraphBreak; mktok (mkspan 3 3) (KNewline 2); mktok (mkspan 5 6) KWord].
+Definition md_nl_doc : list token :=
+  [mktok (mkspan 0 1) KWord; mktok (mkspan 0 0) KParagraphBreak; mktok (mkspan 3 3) KParagraphBreak; mktok (mkspan 5 6) KWord].
+Example document_markdown_inert_newlines_example :
+  md_contract md_nl_src md_nl_evs /\
+  markdown_parse ascii_uni false md_nl_src md_nl_evs = Ok md_nl_out /\
+  md_doc_class md_nl_out = 1 /\ nl_inertb md_nl_out = true /\
+  document_markdown ascii_uni false md_nl_src md_nl_evs = Ok md_nl_doc.
+Proof. repeat split; vm_compute; reflexivity. Qed.
+
+(* the remaining class is inhabited: the vector of the limit Example C02Findings.zero_width_newline_limit *)
+Example md_doc_class_remaining_example :
+  md_doc_class [mktok (mkspan 0 3) KWord; mktok (mkspan 1 1) (KNewline 2); mktok (mkspan 3 4) (KNewline 1)] = 2.
+Proof. vm_compute. reflexivity. Qed.
+
+Print Assumptions document_markdown_inert_newlines.
